@@ -365,6 +365,12 @@ pub fn run_calls(b: &mut Built, sc: &Scenario, spec: &StratSpec, seed: u64, repl
         }
     });
     let events = std::mem::take(&mut *ctx.events.lock().unwrap());
+    if std::env::var("VERIF_DUMP_EVENTS").is_ok() {
+        for e in &events {
+            println!("EV {:?} sid={} inst={} task={} worker={} aux={}", e.kind, e.sid as i32, e.inst, (e.task != 0) as u8, e.worker, e.aux);
+        }
+        println!("EVEND trace={:?}", report.trace);
+    }
     let fired = {
         let d = ctx.directives.lock().unwrap();
         sc.faults.iter().map(|f| f.sid < d.len() && !d[f.sid].iter().any(|x| x.call == f.call && x.kind == f.kind)).collect()
